@@ -163,8 +163,8 @@ var nestPatterns = []nestPattern{
 	{"binop-right", "1", "", "", "+1", ""},
 	{"cond", "", "t?", "1", ":0", ""},
 	{"cond-cond", "", "t?1:", "0", "", ""},
-	{"for-tuple", "", "[for x in ", "l", ":x]", ""},
-	{"for-object", "", "{for k,v in ", "m", ":k=>v}", ""},
+	{"for-tuple", "", "[for x in ", "one", ":x]", ""},
+	{"for-object", "", "{for k,v in ", "m1", ":k=>v}", ""},
 	{"index", "a", "", "", "[0]", ""},
 	{"index-expr", "", "a[", "0", "]", ""},
 	{"attr", "a", "", "", ".b", ""},
@@ -174,7 +174,7 @@ var nestPatterns = []nestPattern{
 	{"quote-interp", "", "\"${", "1", "}\"", ""},
 	{"quote-interp-lit", "", "\"x${", "a", "}y\"", ""},
 	{"quote-if", "\"", "%{if t}", "x", "%{endif}", "\""},
-	{"quote-for", "\"", "%{for x in l}", "x", "%{endfor}", "\""},
+	{"quote-for", "\"", "%{for x in one}", "x", "%{endfor}", "\""},
 	{"quote-if-else", "\"", "%{if t}a%{else}", "x", "%{endif}", "\""},
 	{"heredoc-interp", "", "<<E\n${", "1", "}\nE\n", ""},
 	{"heredoc-flush-interp", "", "<<-E\n  ${", "1", "}\n  E\n", ""},
@@ -191,7 +191,7 @@ var nestPatterns = []nestPattern{
 	{"cfg-heredocs", "", "x = <<E\n", "", "E\n", ""},
 	{"tpl-interp", "", "${\"", "x", "\"}", ""},
 	{"tpl-if", "", "%{if t}", "x", "%{endif}", ""},
-	{"tpl-for", "", "%{for x in l}", "x", "%{endfor}", ""},
+	{"tpl-for", "", "%{for x in one}", "x", "%{endfor}", ""},
 	{"tpl-if-strip", "", "%{~if t~}\n", "x", "\n%{~endif~}", ""},
 	{"tpl-else-chain", "%{if t}", "%{else}", "", "", "%{endif}"},
 	{"json-array", "", "[", "1", "]", ""},
